@@ -23,7 +23,8 @@ from amisc.training import SparseGrid  # noqa: E402
 def build(spec):
     sgk = dict(opt_args={'locally_biased': False, 'maxfun': 60})
     names = spec['exo']
-    xs = {n: Variable(n, domain=(0.0, 1.0)) for n in names}
+    # (exogenous inputs carry different categories: nothing learned may depend on the order of a SET of them)
+    xs = {n: Variable(n, domain=(0.0, 1.0), category=['calibration', 'design', 'operating', None][i_ % 4]) for i_, n in enumerate(names)}
     if spec['kind'] == 'ff':
         y1 = Variable('y1', domain=(0.0, 6.0)); y2 = Variable('y2')
         w = spec['w']
